@@ -13,6 +13,10 @@ check must stay silent (exit 0, no ANALYSIS-ERROR) on every transformed tree.
   augassign   : x = x + e -> x += e for int-looking names is NOT safe in general (lists), so
                 the reverse is done instead:  x += e -> x = x + e  for Name targets
   invertif    : if c: A else: B  ->  if not c: B else: A   (elif chains are left alone)
+  noelse      : if c: ...; return X  else: B  ->  if c: ...; return X ; B   (no-else-return)
+  splitchain  : a <= x < b  ->  a <= x and x < b   (x a plain name)
+  retvar      : return <expr>  ->  rv_ = <expr>; return rv_
+  extractvar  : y = f(g(a), b)  ->  t1_ = g(a); y = f(t1_, b)
   shift       : three comment lines are inserted at the top of every module (line keys)
 
 usage: generic.py [transform ...] [-j N] [--suite]     (--suite also runs the pinned test
@@ -242,7 +246,132 @@ def t_invertif(tree, src):
     return ast.unparse(tree)
 
 
-TRANSFORMS = {"unparse": t_unparse, "shift": t_shift, "rename": t_rename, "flipcmp": t_flipcmp, "augassign": t_augassign, "invertif": t_invertif}
+class _NoElse(ast.NodeTransformer):
+    """if c: ...; return X  else: B   ->   if c: ...; return X   followed by B"""
+
+    def _block(self, stmts):
+        out = []
+        for st in stmts:
+            st = self.visit(st)
+            if isinstance(st, ast.If) and st.orelse and isinstance(st.body[-1], (ast.Return, ast.Raise, ast.Continue, ast.Break)) \
+                    and not (len(st.orelse) == 1 and isinstance(st.orelse[0], ast.If)):
+                tail = st.orelse
+                st.orelse = []
+                out.append(st)
+                out.extend(tail)
+            else:
+                out.append(st)
+        return out
+
+    def generic_visit(self, node):
+        for fld in ("body", "orelse", "finalbody"):
+            v = getattr(node, fld, None)
+            if isinstance(v, list) and v and isinstance(v[0], ast.stmt):
+                setattr(node, fld, self._block(v))
+        for h in getattr(node, "handlers", []) or []:
+            h.body = self._block(h.body)
+        return node
+
+
+def t_noelse(tree, src):
+    tree = _NoElse().visit(tree)
+    ast.fix_missing_locations(tree)
+    return ast.unparse(tree)
+
+
+class _Split(ast.NodeTransformer):
+    def visit_Compare(self, n):
+        self.generic_visit(n)
+        if len(n.ops) == 2 and all(isinstance(c, (ast.Name, ast.Constant)) or (isinstance(c, ast.BinOp) and _callfree(c)) for c in [n.left] + n.comparators) and isinstance(n.comparators[0], ast.Name):
+            a, b, c = n.left, n.comparators[0], n.comparators[1]
+            return ast.copy_location(ast.BoolOp(ast.And(), [ast.Compare(a, [n.ops[0]], [b]), ast.Compare(ast.Name(b.id, ast.Load()), [n.ops[1]], [c])]), n)
+        return n
+
+
+def t_splitchain(tree, src):
+    tree = _Split().visit(tree)
+    ast.fix_missing_locations(tree)
+    return ast.unparse(tree)
+
+
+class _RetVar(ast.NodeTransformer):
+    """return <expr>  ->  rv_ = <expr>; return rv_   (expr not already a name / constant)"""
+
+    def _block(self, stmts):
+        out = []
+        for st in stmts:
+            st = self.visit(st)
+            if isinstance(st, ast.Return) and st.value is not None and not isinstance(st.value, (ast.Name, ast.Constant)):
+                out.append(ast.copy_location(ast.Assign([ast.Name("rv_", ast.Store())], st.value), st))
+                out.append(ast.copy_location(ast.Return(ast.Name("rv_", ast.Load())), st))
+            else:
+                out.append(st)
+        return out
+
+    def generic_visit(self, node):
+        if isinstance(node, ast.Lambda):
+            return node
+        for fld in ("body", "orelse", "finalbody"):
+            v = getattr(node, fld, None)
+            if isinstance(v, list) and v and isinstance(v[0], ast.stmt):
+                setattr(node, fld, self._block(v))
+        for h in getattr(node, "handlers", []) or []:
+            h.body = self._block(h.body)
+        return node
+
+
+def t_retvar(tree, src):
+    tree = _RetVar().visit(tree)
+    ast.fix_missing_locations(tree)
+    return ast.unparse(tree)
+
+
+class _Extract(ast.NodeTransformer):
+    """y = f(g(a), b)  ->  t1_ = g(a); y = f(t1_, b)   (and the same for return f(g(a), b)):
+    the first positional argument of the outermost call, when it is itself a call and the
+    callee expression of the outer call is a plain name or attribute chain of names (so that
+    evaluation order is preserved)"""
+
+    def __init__(self):
+        self.k = 0
+
+    def _simple(self, e):
+        while isinstance(e, ast.Attribute):
+            e = e.value
+        return isinstance(e, ast.Name)
+
+    def _block(self, stmts):
+        out = []
+        for st in stmts:
+            st = self.visit(st)
+            v = st.value if isinstance(st, (ast.Assign, ast.Return)) else None
+            if isinstance(v, ast.Call) and self._simple(v.func) and v.args and isinstance(v.args[0], ast.Call) and not any(isinstance(a, ast.Starred) for a in v.args):
+                self.k += 1
+                nm = "t%d_" % self.k
+                out.append(ast.copy_location(ast.Assign([ast.Name(nm, ast.Store())], v.args[0]), st))
+                v.args[0] = ast.Name(nm, ast.Load())
+            out.append(st)
+        return out
+
+    def generic_visit(self, node):
+        if isinstance(node, ast.Lambda):
+            return node
+        for fld in ("body", "orelse", "finalbody"):
+            v = getattr(node, fld, None)
+            if isinstance(v, list) and v and isinstance(v[0], ast.stmt):
+                setattr(node, fld, self._block(v))
+        for h in getattr(node, "handlers", []) or []:
+            h.body = self._block(h.body)
+        return node
+
+
+def t_extractvar(tree, src):
+    tree = _Extract().visit(tree)
+    ast.fix_missing_locations(tree)
+    return ast.unparse(tree)
+
+
+TRANSFORMS = {"unparse": t_unparse, "shift": t_shift, "rename": t_rename, "flipcmp": t_flipcmp, "augassign": t_augassign, "invertif": t_invertif, "noelse": t_noelse, "splitchain": t_splitchain, "retvar": t_retvar, "extractvar": t_extractvar}
 
 
 # ------------------------------------------------------------------ driver
